@@ -1,5 +1,6 @@
 """C02 — and/or: short-circuit structure, polarity, operand order, nullary values, value storage."""
 CANON = True
+STRICT = {"R-LIN-ANON", "R-LIN-VAR", "R-LIN-PATH", "R-EXPR-STORE", "R-REC-FWD"}
 
 import ast
 
@@ -93,6 +94,12 @@ def check(ctx, src):
     fin = pyq.contains(f, lambda n: isinstance(n, ast.If) and norm(n.test) == "var" and "ret.expr = get(expr)" in [norm(s) for s in n.body])
     ctx.check(fin is not None, "BOOL-VALUE", f"{R}|{FN}|final-value", "when a temporary was used, the form's value must be the temporary", R, f.lineno, detail="ret.expr = get(expr)")
     check_rtemp(ctx, comp)
+    from . import c11 as _c11
+    from .. import core as _core
+
+    ctx.rule("R-LIN", "Result-flow rules shared with C11, for the functions of this property: no value placed on a path that excludes the placement of its statements, no expression replaced while the operand's "
+             "temporaries stay exposed, no recursive call that loses a parameter")
+    _core.transfer(ctx, src, _c11, {"R-LIN-PATH", "R-EXPR-STORE", "R-REC-FWD"}, key_filter=lambda k: any(f in k for f in ('compile_logical_or_and_and_operator',)))
     ctx.floor("BOOL-APPEND", 4)
 
 
